@@ -74,6 +74,11 @@ pub trait Scenario: Sync {
     fn simplify(&self, case: &Self::Case) -> Vec<Self::Case>;
     /// components that ran real code / stubs, for the evidence
     fn components(&self) -> serde_json::Value;
+    /// Does the property itself demand that re-executing the same case gives the same log
+    /// (then a divergence is a violation of the property, not a harness error)?
+    fn nondeterminism_is_violation(&self) -> bool {
+        false
+    }
 }
 
 pub struct BatchCfg {
@@ -94,6 +99,9 @@ pub struct BatchCfg {
     /// write the set of distinct non-trivial (case, signature) hashes here (u64 LE), so that a
     /// parent process can count distinct cases across shards exactly
     pub distinct_file: Option<PathBuf>,
+    /// the index of the run about to be executed is written here (a run that aborts the whole
+    /// process — stack overflow, abort — can then be named by the parent)
+    pub progress_file: Option<PathBuf>,
 }
 
 pub struct Found<C> {
@@ -104,6 +112,8 @@ pub struct Found<C> {
 }
 
 pub struct BatchOut {
+    /// run indices during which a shard process died (signal / abort)
+    pub crashed_runs: Vec<(u64, String)>,
     pub partial: serde_json::Value,
     /// lines to print (VIOLATION / KNOWN-FINDING)
     pub lines: Vec<String>,
@@ -183,6 +193,9 @@ pub fn run_batch<S: Scenario>(s: &S, cfg: &BatchCfg) -> BatchOut {
                     if cfg.budget_s > 0.0 && t0.elapsed().as_secs_f64() > cfg.budget_s {
                         break;
                     }
+                    if let Some(p) = &cfg.progress_file {
+                        let _ = std::fs::write(p, format!("{i}"));
+                    }
                     let run_seed = mix(mix(cfg.seed, prop_tag), i);
                     let mut rng = Rng::new(run_seed);
                     let case = s.generate(&mut rng, cfg.thorough);
@@ -200,10 +213,17 @@ pub fn run_batch<S: Scenario>(s: &S, cfg: &BatchCfg) -> BatchOut {
                     if audit {
                         g.audited += 1;
                     }
+                    let mut r = r;
                     if let Some(d) = div {
-                        g.harness_errors
-                            .push(format!("run {i} (seed {run_seed}): {d}"));
-                        stop.store(true, Ordering::Relaxed);
+                        if s.nondeterminism_is_violation() {
+                            if r.violation.is_none() {
+                                r.violation = Some(Violation::new("determinism", "re-execution-differs", d));
+                            }
+                        } else {
+                            g.harness_errors
+                                .push(format!("run {i} (seed {run_seed}): {d}"));
+                            stop.store(true, Ordering::Relaxed);
+                        }
                     }
                     if r.nontrivial {
                         g.nontrivial += 1;
@@ -323,6 +343,7 @@ pub fn run_batch<S: Scenario>(s: &S, cfg: &BatchCfg) -> BatchOut {
             run_index: f.run_index,
             plan: serde_json::to_value(&case).unwrap(),
             decisions,
+            decision_seed: None,
             violation: viol.clone(),
             shrink: shrink_info,
         };
@@ -332,9 +353,25 @@ pub fn run_batch<S: Scenario>(s: &S, cfg: &BatchCfg) -> BatchOut {
             harness_errors.push(format!("cannot write replay file {}: {e}", path.display()));
             continue;
         }
-        // confirm in a fresh process
-        match replay_in_fresh_process(&path) {
+        // confirm in a fresh process; a violation that stems from hash-iteration order (which
+        // std randomises per process and the framework varies but cannot control) may need
+        // several fresh processes to show again
+        let mut confirmed = replay_in_fresh_process(&path);
+        let mut tries = 1;
+        while tries < 12 && !matches!(&confirmed, Ok(Some(v)) if v.same_kind(&viol)) {
+            confirmed = replay_in_fresh_process(&path);
+            tries += 1;
+        }
+        match confirmed {
             Ok(Some(v)) if v.same_kind(&viol) => {
+                if tries > 1 {
+                    lines.push(format!(
+                        "NOTE property={} replay={} reproduced only on fresh-process attempt {} (depends on per-process hash order)",
+                        s.property(),
+                        path.display(),
+                        tries
+                    ));
+                }
                 lines.push(format!(
                     "VIOLATION property={} replay={}",
                     s.property(),
@@ -388,6 +425,7 @@ pub fn run_batch<S: Scenario>(s: &S, cfg: &BatchCfg) -> BatchOut {
         "harness_errors": harness_errors,
     });
     BatchOut {
+        crashed_runs: Vec::new(),
         partial,
         lines,
         violations,
@@ -395,8 +433,28 @@ pub fn run_batch<S: Scenario>(s: &S, cfg: &BatchCfg) -> BatchOut {
     }
 }
 
+/// The case and decision seed of run `i` of a batch, exactly as the worker derives them.
+pub fn case_of_run<S: Scenario>(s: &S, seed: u64, i: u64, thorough: bool) -> (S::Case, u64) {
+    let prop_tag = crate::fnv_str(&format!("{}:{}", s.property(), s.name()));
+    let run_seed = mix(mix(seed, prop_tag), i);
+    let mut rng = Rng::new(run_seed);
+    (s.generate(&mut rng, thorough), mix(run_seed, 0xdec1))
+}
+
+/// Execute once — or, where re-execution equality is part of the property, twice — and report
+/// the violation seen.
+fn execute_judged<S: Scenario>(s: &S, case: &S::Case, decisions: &[u64]) -> RunResult {
+    let mut r = s.execute(case, Decisions::replay(decisions.to_vec()));
+    if r.violation.is_none() && s.nondeterminism_is_violation() {
+        if let Some(d) = exec_twice_same(s, case, &r.decisions.clone(), &r) {
+            r.violation = Some(Violation::new("determinism", "re-execution-differs", d));
+        }
+    }
+    r
+}
+
 fn still_fails<S: Scenario>(s: &S, case: &S::Case, decisions: &[u64], want: &Violation) -> Option<(Vec<u64>, Violation)> {
-    let r = s.execute(case, Decisions::replay(decisions.to_vec()));
+    let r = execute_judged(s, case, decisions);
     match r.violation {
         Some(v) if v.same_kind(want) => Some((r.decisions, v)),
         _ => None,
@@ -469,7 +527,10 @@ pub fn shrink_found<S: Scenario>(
 pub fn replay_case<S: Scenario>(s: &S, rf: &ReplayFile) -> Result<RunResult, String> {
     let case: S::Case =
         serde_json::from_value(rf.plan.clone()).map_err(|e| format!("bad plan in replay file: {e}"))?;
-    Ok(s.execute(&case, Decisions::replay(rf.decisions.clone())))
+    if let Some(ds) = rf.decision_seed {
+        return Ok(s.execute(&case, Decisions::generate(ds)));
+    }
+    Ok(execute_judged(s, &case, &rf.decisions))
 }
 
 /// `<this exe> replay <path>` must print a line `REPLAY-VERDICT <json violation or null>`.
@@ -486,6 +547,13 @@ pub fn replay_in_fresh_process(path: &Path) -> Result<Option<Violation>, String>
         if let Some(j) = l.strip_prefix("REPLAY-VERDICT ") {
             return serde_json::from_str::<Option<Violation>>(j).map_err(|e| e.to_string());
         }
+    }
+    if !matches!(out.status.code(), Some(0) | Some(1) | Some(2)) {
+        return Ok(Some(process_aborted(&format!(
+            "exit {:?}: {}",
+            out.status.code(),
+            String::from_utf8_lossy(&out.stderr).trim().lines().last().unwrap_or("")
+        ))));
     }
     Err(format!(
         "no REPLAY-VERDICT line (exit {:?}): {}{}",
@@ -535,6 +603,8 @@ pub fn run_sharded(
             .arg(&partial)
             .arg("--distinct-file")
             .arg(&distinct)
+            .arg("--progress-file")
+            .arg(work_dir.join(format!("{tag}.shard{k}.progress")))
             .stdout(std::process::Stdio::piped())
             .stderr(std::process::Stdio::piped());
         if let Some(s) = sig_file {
@@ -544,6 +614,7 @@ pub fn run_sharded(
             Ok(c) => children.push((k, c, partial, distinct)),
             Err(e) => {
                 return BatchOut {
+                    crashed_runs: Vec::new(),
                     partial: json!({}),
                     lines: vec![],
                     violations: 0,
@@ -560,6 +631,7 @@ pub fn run_sharded(
     let mut distinct_sched: HashSet<u64> = HashSet::new();
     let mut sig_lines: Vec<(u64, String)> = Vec::new();
     let mut found_lines: Vec<(String, String)> = Vec::new();
+    let mut crashed_runs: Vec<(u64, String)> = Vec::new();
     let mut known: BTreeMap<String, (u64, u64, String)> = BTreeMap::new();
     for (k, child, partial, distinct_path) in children {
         let out = match child.wait_with_output() {
@@ -581,17 +653,28 @@ pub fn run_sharded(
                 }
             }
         }
+        let progress_path = work_dir.join(format!("{tag}.shard{k}.progress"));
         match out.status.code() {
             Some(0) | Some(1) => {}
-            c => harness_errors.push(format!("shard {k} exited with {c:?}: {}", stderr.trim())),
+            Some(2) => harness_errors.push(format!("shard {k} exited with 2: {}", stderr.trim())),
+            c => {
+                // the process died (signal, abort, stack overflow): name the run it was executing
+                match std::fs::read_to_string(&progress_path).ok().and_then(|t| t.trim().parse::<u64>().ok()) {
+                    Some(i) => crashed_runs.push((i, format!("exit {c:?}: {}", stderr.trim().lines().last().unwrap_or("")))),
+                    None => harness_errors.push(format!("shard {k} died ({c:?}) before its first run: {}", stderr.trim())),
+                }
+            }
         }
+        let _ = std::fs::remove_file(&progress_path);
         for l in stderr.lines() {
             if let Some(e) = l.strip_prefix("HARNESS-ERROR ") {
                 harness_errors.push(format!("shard {k}: {e}"));
             }
         }
         let Ok(text) = std::fs::read_to_string(&partial) else {
-            harness_errors.push(format!("shard {k} wrote no partial record"));
+            if !crashed_runs.iter().any(|_| true) {
+                harness_errors.push(format!("shard {k} wrote no partial record"));
+            }
             continue;
         };
         let Ok(p) = serde_json::from_str::<serde_json::Value>(&text) else {
@@ -724,10 +807,21 @@ pub fn run_sharded(
             "KNOWN-FINDING: property={prop} key={key} occurrences={n} first_run={first} {text}"
         ));
     }
+    crashed_runs.sort();
     BatchOut {
+        crashed_runs,
         partial: m,
         lines,
         violations,
         harness_errors,
     }
+}
+
+
+pub fn process_aborted(detail: &str) -> Violation {
+    Violation::new(
+        "no-crash",
+        "process-aborted",
+        format!("the process executing this run died ({detail})"),
+    )
 }
